@@ -856,3 +856,81 @@ def config_not_mutated(chk):
             chk.ob("CONFIG-0", "a validated configuration entry is not edited in place (what is derived from it - a capacity, a list of switches - stays what was configured)",
                    False, f.where(c), detail=why, construct=ident, text="configuration edited in place: " + src(c.func)[:50])
     chk.ob("CONFIG-0", "functions with container edits examined for edits of configuration entries (%d)" % n, True, "mpf:1", nontrivial=False)
+
+
+# --------------------------------------------------------------------------------------------------------- SHARED-0
+_POS_SHARED = """
+class A:
+    _built = {}
+
+    def build(self, key):
+        try:
+            return self._built[key]
+        except KeyError:
+            pass
+        self._built[key] = key * 2
+        return self._built[key]
+"""
+# class-level containers the pinned tree fills on purpose (process-wide registries), by function
+_SHARED_CONFIRMED = {
+    "mpf/file_interfaces/yaml_interface.py::YamlInterface.load": "process-wide cache of parsed files, keyed by file name and guarded by mtime",
+    "mpf/core/file_manager.py::FileManager.init": "process-wide registry of file interfaces, filled once",
+}
+
+
+def _class_level_containers(cls_node):
+    out = set()
+    for st in cls_node.body:
+        tg = v = None
+        if isinstance(st, ast.Assign) and len(st.targets) == 1 and isinstance(st.targets[0], ast.Name):
+            tg, v = st.targets[0].id, st.value
+        elif isinstance(st, ast.AnnAssign) and isinstance(st.target, ast.Name) and st.value is not None:
+            tg, v = st.target.id, st.value
+        if tg and (isinstance(v, (ast.Dict, ast.List, ast.Set)) or (isinstance(v, ast.Call) and isinstance(v.func, ast.Name) and
+                                                                     v.func.id in ("dict", "list", "set", "deque", "defaultdict", "OrderedDict"))):
+            out.add(tg)
+    if not out:
+        return out
+    # an attribute of the same name bound on self in a method is per instance
+    for x in ast.walk(cls_node):
+        if isinstance(x, (ast.Assign, ast.AnnAssign)):
+            for t0 in (x.targets if isinstance(x, ast.Assign) else [x.target]):
+                if isinstance(t0, ast.Attribute) and src(t0.value) == "self" and t0.attr in out:
+                    out.discard(t0.attr)
+    return out
+
+
+def _shared_writes(cls_node, fn_node):
+    cv = _class_level_containers(cls_node)
+    out = []
+    if not cv:
+        return out
+    for x in ast.walk(fn_node):
+        if isinstance(x, ast.Call) and isinstance(x.func, ast.Attribute) and x.func.attr in _MUTATORS and isinstance(x.func.value, ast.Attribute) and \
+                src(x.func.value.value) in ("self", "cls") and x.func.value.attr in cv:
+            out.append((x, x.func.value.attr))
+        if isinstance(x, (ast.Assign, ast.Delete, ast.AugAssign)):
+            for t0 in (x.targets if not isinstance(x, ast.AugAssign) else [x.target]):
+                if isinstance(t0, ast.Subscript) and isinstance(t0.value, ast.Attribute) and src(t0.value.value) in ("self", "cls") and t0.value.attr in cv:
+                    out.append((x, t0.value.attr))
+    return out
+
+
+def class_state_not_shared(chk):
+    pc = ast.parse(_POS_SHARED).body[0]
+    if len(_shared_writes(pc, pc.body[1])) != 1:
+        chk.pending_errors.append("SHARED-0 detector does not match its positive example")
+    n = 0
+    for ident in sorted(_anchor_idents(chk)):
+        rel, qual = ident.split("::", 1)
+        f = chk.repo.try_func(rel, qual)
+        if f is None or getattr(f, "cls", None) is None:
+            continue
+        n += 1
+        if ident in _SHARED_CONFIRMED:
+            continue
+        for x, name in _shared_writes(f.cls.node, f.node):
+            chk.ob("SHARED-0", "a method does not fill a container defined in the class body (one object for every instance in the process)", False, f.where(x),
+                   detail="`%s` is created once with the class: what one %s stores there every other one reads (a second machine, a second validator with other specs)"
+                          % (name, f.cls.name), construct=ident, text="class-level container %s written" % name)
+    chk.ob("SHARED-0", "methods examined for writes to class-level containers (%d)" % n, True, "mpf:1", nontrivial=False)
